@@ -25,7 +25,8 @@ EXPLANATION = (
     " Also: (R6) a failed pointer write on an atomic backend is a clean failure; (R7) version resolution is stateless; (R8) the pointer's ETag always reaches the conditional write; (R9) recovery's listing is complete."
     " (R10) the CAS path's 'pointer moved' conflict needs a parsed pointer; (R11) the regex's version group is int()-converted before any other use (no lexicographic v9 > v10); (R12) no truthiness test of a version number (v0 is a version); (R13) the new metadata file is numbered resolved version + 1 and the constant start value is guarded by `is None`."
     ' (R14) who-may-delete census (C09.R3); (R15) every pointer write publishes a name freshly allocated by _new_metadata_filename in the same function (the pointer never moves to an old version).'
-    ' (R16) every backend operation does its work and both listings keep every entry (C20.R8).')
+    ' (R16) every backend operation does its work and both listings keep every entry (C20.R8).'
+    " (R19) only the two committers write the pointer (write-namespace census, C09.R1): no lock-free 'repair' of the hint.")
 NOT_DECIDED = ("byte-level pointer grammar x histories at run time; orphans left by a crash (no exception path exists to "
                "clean them - format limitation)")
 
@@ -73,6 +74,10 @@ def check(ctx: Ctx) -> None:
     r10_listing_exhaustive(ctx, "C10.R17")
     from .c20 import r2 as c20_r2
     ctx.shared(c20_r2, "C20.R2", "C10.R18", "a 403 on the pointer or its target is not 'stale pointer': recovery must not run on it")
+    # "the pointer is only a hint" cuts both ways: nobody but the two committers (under the lock, CAS where available) may
+    # write it - a "repair" from a lock-free reader overwrites a commit that landed after the reader's listing
+    from .c09 import r1_fresh_names
+    r1_fresh_names(ctx, "C10.R19")
 
 
 def _fold_digits(ctx: Ctx, f: FunctionInfo, e: ast.AST, at: int, depth: int = 0) -> Optional[str]:
